@@ -188,3 +188,26 @@ Theorem C13_unit_only_ok : forall braces ss,
   (forall s, In s ss -> s = VUnit) -> enum_accepts_shapes ss = true /\ arms_typecheck braces ss = true.
 Proof. exact Proofs.unit_only_ok. Qed.
 Print Assumptions C13_unit_only_ok.
+
+(* ================================================================== arm coverage *)
+
+(** no variant is lost and no arm is foreign, for ANY identifier-to-string functions, any variant list (distinct
+    names not required) and any iteration order of the map: the arms of the generated `match` are exactly one family
+    per variant, each with the variant's lower-cased key as its pattern and (if guarded) its own guard string *)
+Theorem C13_arms_sound : forall (lower : str -> str) (kf gf : ident -> str) vs gs p go v,
+  Proofs.GroupsOf lower kf vs gs -> In (Arm p go v) (all_arms gf gs) ->
+  In v vs /\ p = lower (kf v) /\ (go = None \/ go = Some (gf v)).
+Proof. exact Proofs.arms_sound. Qed.
+Print Assumptions C13_arms_sound.
+
+Theorem C13_arms_complete : forall (lower : str -> str) (kf gf : ident -> str) vs gs v,
+  Proofs.GroupsOf lower kf vs gs -> In v vs -> exists go, In (Arm (lower (kf v)) go v) (all_arms gf gs).
+Proof. exact Proofs.arms_complete. Qed.
+Print Assumptions C13_arms_complete.
+
+(** with NO hypothesis on the variant list: an accepted string yields a variant of this enum whose name equals the
+    string ignoring case (the `ignoring case` half of the documented rule can never be exceeded) *)
+Theorem C13_ok_in : forall (lower : str -> str) enum vs s v,
+  enum_from lower key_unraw guard_unraw name_unraw enum vs s = Ok v -> In v vs /\ lower s = lower (iname v).
+Proof. exact (fun lower enum vs s v H => Proofs.enum_ok_in lower true guard_unraw name_unraw enum vs s v (H : enum_from lower true guard_unraw name_unraw enum vs s = Ok v)). Qed.
+Print Assumptions C13_ok_in.
